@@ -137,7 +137,7 @@ def run_shard(spec):
         res['exhaustive'] = True
     elif k == 'arrays':
         r = random.Random(spec['seed'] * 17 + spec['part'])
-        for n in range(0, 65):
+        for n in list(range(0, 65)) + [255, 256, 257, 300, 700, 1025]:
             if n % spec['parts'] != spec['part']:
                 continue
             data = bytes(r.choice([0, 10, 13, 34, 39, 92, 127, 128, 255, r.randrange(256)]) for _ in range(n))
@@ -154,12 +154,16 @@ def run_shard(spec):
                    f'    write({lit}); write(\'|\'); write({arr if n else "GC"}); write(\'|\');\n'
                    '    viaparam(GC, GS, LM); viaparam(LM, GS, LM); viaparam(arg, GS, LM);\n'
                    '    writeln(GC); writeln(GS); writeln(LM); writeln(); write(keep); write(LM.length);\n'
-                   '}\n')
+                   + (('    const byte[] LC = [' + ', '.join(f'LM[{i}]' for i in range(n)) + ']; write(\'#\'); write(LC); writeln(LC); viaparam(LC, GS, LM);\n'
+                       '    write([LM[0], \'x\', LM[' + str(n - 1) + ']]); write(LC.length);\n') if 1 <= n <= 9 else '')
+                   + '}\n')
             d = data
             want = (d + b'|') * 7
             for _ in range(3):
                 want += d + b'|' + d + b'|' + d + b'\n' + d + b'\n' + d + b'\n'
             want += d + b'\n' + d + b'\n' + d + b'\n\n' + b'31337' + str(n).encode()
+            if 1 <= n <= 9:
+                want += b'#' + d + d + b'\n' + d + b'|' + d + b'|' + d + b'\n' + d + b'\n' + d + b'\n' + bytes([d[0]]) + b'x' + bytes([d[-1]]) + str(n).encode()
             expect_run(res, src, [str(b) for b in data], spec['word'], want, f'write(byte array / string) of length {n}', [runner.case_id('arr', n, spec['word'], i) for i in range(4)])
         res['exhaustive'] = True
         res['samples'].append({'write_arrays': 'lengths 0..64 as const global, string, mutable local, string-converted, argument, parameter'})
